@@ -130,8 +130,8 @@ func (r *mref) class() wclass { return classOf(r.loc.Type()) }
 type mthrow struct{}
 type mskip struct{ why string }
 
-func throwJS()         { panic(mthrow{}) }
-func skip(why string)  { panic(mskip{why}) }
+func throwJS()        { panic(mthrow{}) }
+func skip(why string) { panic(mskip{why}) }
 func isContainerKind(k reflect.Kind) bool {
 	return k == reflect.Struct || k == reflect.Slice || k == reflect.Array
 }
@@ -922,7 +922,7 @@ func (m *model) shrink(r *mref, size int) {
 func (m *model) setLength(r *mref, n int) {
 	switch r.class() {
 	case wSlice, wIfSlice:
-			cur := r.loc.Len()
+		cur := r.loc.Len()
 		if n > cur {
 			m.grow(r, n)
 		} else if n < cur {
@@ -1290,7 +1290,6 @@ func (m *model) sortInPlace(r *mref) {
 		}
 	}
 }
-
 
 // ---------------------------------------------------------------------------------------------------
 // dumps of model values (what D / F of the prelude must print)
